@@ -17,7 +17,7 @@ func init() {
 	fw.Register(&fw.Prop{
 		ID: "C17",
 		Rule: "SGD.Update monitor: weights of every shape of rank 0..R (sizes 1..3) get their gradient from a back-propagated graph - a random C01 program, a product with a constant whose gradient entries sum to exactly 0, or several accumulated back-propagations - so gradients are non-uniform; learning rates {nil config (0.01), zero-value config, 0, 1e-3, -1e-3, 0.5, -0.5, 2}; after Update the tensor behind the pointer must have the same shape and elements w - lr*g (tolerance 4 ulp-scale), the previous tensor object, its elements and its gradient object/elements must be unchanged, and one optimizer object is used for two consecutive updates of different tensors. Invalid inputs (nil pointer, pointer to nil, tracked tensor without gradient, untracked tensor, tensor whose context was reset) must return an error and leave the pointer target identical. " +
-			"Non-trivial: >= 2 elements and lr != 0, or an invalid input; distinct = (shape, learning rate, gradient source).",
+			"Non-trivial: >= 2 elements and lr != 0, or an invalid input; distinct = (shape, learning rate, gradient source). Later additions: tensors of 16 384..72 900 elements and one long dimension (127..4097); the same tensor object stepped twice by one optimizer with a gradient that grew in between; gradients of magnitude 1e+-200; the config overwritten after construction.",
 		Assumptions: []string{"the gradient used by the oracle is the one read back from the tensor before the update (its own correctness is C01/C02's subject)"},
 		FloorQuick:  1500, FloorThor: 15000,
 		Run: runC17,
